@@ -129,6 +129,9 @@ var sites = []siteSpec{
 	{"pkg/v3/plugin/hooks/add_from_staging.go", "stagedResultSorter.updateShuffledIDs"},
 	{"pkg/v3/stores/metadata_store.go", "metadataStore.SetBlockHistory"},
 	{"pkg/v3/runner/runner.go", "NewRunner"},
+	{"pkg/v3/plugin/plugin.go", "newPlugin"},
+	{"pkg/v2/encode.go", "encode"},
+	{"tools/simulator/simulate/ocr/report.go", "ReportTracker.run"},
 	{"pkg/v2/runner/runner.go", "NewRunner"},
 	{"pkg/v3/plugin/hooks/add_log_proposals.go", "AddLogProposalsHook.RunHook"},
 	{"pkg/v3/plugin/hooks/add_conditional_proposals.go", "AddConditionalProposalsHook.RunHook"},
